@@ -533,3 +533,254 @@ def multi_history(rng, gen_cls=None, base="/data/audio", k=4):
     steps += [mk(aoefgen.revise(c)) for c in cols[::-1]]
     steps += [mk(cols[0], fresh=True), mk(aoefgen.revise(cols[1]), fresh=True), mk(cols[1], fresh=True), mk(cols[0])]
     return {"steps": steps}
+
+
+# ----------------------------------------------------------------------------- follow-up: boundaries, siblings, sizes
+# (HISTORIES.md sections 2-4)
+def _rel(x, k, sign):
+    """x moved by a relative 10^-k (absolute when x == 0)"""
+    return x + sign * (abs(x) if x else 1.0) * 10.0 ** -k
+
+
+def time_expansion_values():
+    """the one numeric comparison the adapters make (`time_expansion != 1.0`: the default is not stored): values at
+    10^-6 … 10^-15 relative distance on both sides of 1.0, the neighbouring floats, and the same offsets around other
+    magnitudes (nothing special may happen there)"""
+    import math
+    vals = [1.0, math.nextafter(1.0, 2.0), math.nextafter(1.0, 0.0), 0.0, 5e-324, 1e-9, 1e9, 0.5, 2.0, 10.0]
+    for k in (6, 8, 9, 10, 12, 15):
+        for s in (1, -1):
+            vals += [_rel(1.0, k, s), _rel(10.0, k, s), _rel(1e-6, k, s), _rel(1e9, k, s)]
+    out = []
+    for v in vals:
+        if v not in out and v >= 0:
+            out.append(v)
+    return out
+
+
+def time_expansion_cases(types=("recording_set", "evaluation", "annotation_project", "model_run")):
+    out = []
+    vals = time_expansion_values()
+    for j, ty in enumerate(types):
+        rng = random.Random("te:" + ty)
+        for i, te in enumerate(vals):
+            if j and i % len(types) != j:           # every value on the first type, a quarter of them on the others
+                continue
+            base = ["/data/audio", "audio", None][i % 3]
+            g = aoefgen.Gen(rng, base=base, size=0.5)
+            for r in g.recordings:
+                r["time_expansion"] = num(te)
+            g.clips = [g.clip() for _ in range(2)]
+            g.ses = [g.sound_event(k) for k in range(2)]
+            g.seqs = [g.sequence()]
+            g.seas, g.sqas, g.seps, g.sqps = [g.sea()], [g.sqa()], [g.sep()], [g.sqp()]
+            cj = g.collection(ty)
+            if ty == "recording_set" and not cj["value"]["recordings"]:
+                cj["value"]["recordings"] = [copy.deepcopy(g.recordings[0])]
+            out.append({"collection": cj, "save_dir": base if i % 2 else None, "load_dir": base if i % 2 else None,
+                        "n": 2, "dir_as": "str", "fresh": bool(i % 4 == 3), "_tally": "time_expansion near 1.0"})
+    return out
+
+
+class NearGen(TwinGen):
+    """twins that differ from their original by a tolerance-sized amount in one number (10^-6 … 10^-15 relative, at
+    small and large magnitudes): two clips over *almost* the same span, two sound events with almost the same
+    geometry, scores / features / coordinates a hair apart.  They are different objects with different content and
+    must come back as such."""
+
+    def _nudge(self, tok):
+        r = self.rng
+        x = float(tok)
+        y = _rel(x, r.choice([6, 8, 9, 10, 12, 15]), r.choice([1, -1]))
+        return num(y) if y != x and abs(y) < 1e300 else num(x + 1.0)
+
+    def twin(self, obj):
+        import json as _json
+        o = super().twin(obj)
+        r = self.rng
+        nums = [k for k in ("start_time", "end_time", "duration", "latitude", "longitude", "score", "affinity", "time_expansion")
+                if isinstance(o.get(k), str)]
+        if nums and r.random() < 0.8:
+            k = r.choice(nums)
+            if k == "end_time":
+                o[k] = num(max(float(self._nudge(o[k])), float(o["start_time"])))
+            elif k == "start_time":
+                o[k] = num(min(max(float(self._nudge(o[k])), 0.0), float(o["end_time"])))
+            elif k in ("score", "affinity"):
+                o[k] = num(min(max(float(self._nudge(o[k])), 0.0), 1.0))
+            elif k == "latitude":
+                o[k] = num(min(max(float(self._nudge(o[k])), -90.0), 90.0))
+            elif k == "longitude":
+                o[k] = num(min(max(float(self._nudge(o[k])), -180.0), 180.0))
+            elif k in ("duration", "time_expansion"):
+                o[k] = num(abs(float(self._nudge(o[k]))))
+            else:
+                o[k] = self._nudge(o[k])
+        elif isinstance(o.get("geometry"), str) and r.random() < 0.8:
+            g = _json.loads(o["geometry"])
+            if g["type"] == "TimeStamp":
+                g["coordinates"] = float(self._nudge(num(g["coordinates"])))
+            elif g["type"] in ("TimeInterval", "BoundingBox"):
+                c = list(g["coordinates"])
+                c[-1] = max(float(self._nudge(num(c[-1]))), c[-1])          # the far end moves outwards
+                g["coordinates"] = c
+            elif g["type"] == "Point":
+                g["coordinates"] = [g["coordinates"][0], abs(float(self._nudge(num(g["coordinates"][1]))))]
+            o["geometry"] = geom_token(g)
+        if isinstance(o.get("features"), list) and o["features"] and r.random() < 0.5:
+            o["features"] = [dict(o["features"][0], value=self._nudge(o["features"][0]["value"]))] + o["features"][1:]
+        return o
+
+
+# list slots: (class in the model JSON, field, may an element be repeated?)
+LIST_SLOTS = [
+    ("Recording", "tags", True), ("Recording", "owners", False), ("Recording", "notes", False), ("Recording", "features", False),
+    ("Clip", "features", False), ("SoundEvent", "features", False), ("Sequence", "features", False),
+    ("SoundEventAnnotation", "tags", True), ("SoundEventAnnotation", "notes", False),
+    ("SequenceAnnotation", "tags", True), ("SequenceAnnotation", "notes", False),
+    ("ClipAnnotation", "tags", True), ("ClipAnnotation", "notes", False), ("ClipAnnotation", "sound_events", False),
+    ("ClipAnnotation", "sequences", False),
+    ("SoundEventPrediction", "tags", True), ("SequencePrediction", "tags", True), ("ClipPrediction", "tags", True),
+    ("ClipPrediction", "features", False), ("ClipPrediction", "sound_events", False), ("ClipPrediction", "sequences", False),
+    ("AnnotationTask", "status_badges", True), ("Match", "metrics", False), ("ClipEvaluation", "metrics", False),
+    ("ClipEvaluation", "matches", False),
+]
+COLLECTION_LIST_SLOTS = [("annotation_project", "annotation_tags", True), ("evaluation_set", "evaluation_tags", True),
+                         ("evaluation", "metrics", False), ("annotation_project", "tasks", False)]
+
+
+def sibling_variants(rich_by_type, rng, hosts_per_slot=1):
+    """every list slot of every class — the siblings that mirror each other (tags of a recording / of a clip
+    annotation / of a sound event annotation / of a sequence annotation / of the project; features of …; notes of …) —
+    one at a time: reversed, rotated, and (where an element may legitimately occur twice: tags, predicted tags,
+    status badges) with its last element repeated in front.  An adapter that treats one of the siblings differently
+    from the others (sorts it, de-duplicates it) shows on that slot alone."""
+    out = []
+
+    def variants(xs, dup):
+        vs = []
+        if len(xs) >= 2:
+            vs.append(("reversed", list(reversed(xs))))
+            vs.append(("rotated", xs[1:] + xs[:1]))
+        if dup and xs:
+            vs.append(("repeated", [copy.deepcopy(xs[-1])] + xs))
+            if isinstance(xs[-1], dict) and set(xs[-1]) == {"tag", "score"}:
+                other = num(0.0 if float(xs[-1]["score"]) != 0.0 else 1.0)
+                vs.append(("repeated-other-score", [dict(copy.deepcopy(xs[-1]), score=other)] + xs))
+        return vs
+    for cname, f, dup in LIST_SLOTS:
+        hosts = [t for t in HOSTS.get(cname, []) if t in rich_by_type]
+        for ty in (rng.sample(hosts, min(hosts_per_slot, len(hosts))) if hosts_per_slot else hosts):
+            base = rich_by_type[ty]
+            probe = []
+            map_kind(base, cname, lambda d, f=f: (probe.append(d.get(f)) or d))
+            hows = sorted({h for xs in probe if isinstance(xs, list) for h, _ in variants(xs, dup)})
+            for how in hows:
+                def fn(d, f=f, how=how, dup=dup):
+                    xs = d.get(f)
+                    if isinstance(xs, list):
+                        for h, ys in variants(xs, dup):
+                            if h == how:
+                                return dict(d, **{f: ys})
+                    return d
+                out.append((f"{cname}.{f}:{how}", {"collection": map_kind(base, cname, fn)}))
+    for ty, f, dup in COLLECTION_LIST_SLOTS:
+        base = rich_by_type.get(ty)
+        if base is None or not isinstance(base["value"].get(f), list):
+            continue
+        for how, ys in variants(base["value"][f], dup):
+            out.append((f"{COLLECTION_CLASS[ty]}.{f}:{how}", {"collection": {"type": ty, "value": dict(copy.deepcopy(base["value"]), **{f: ys})}}))
+    return out
+
+
+def share_uuids_across_kinds(cj, rng, k=4):
+    """objects of *different* kinds carrying one uuid (a prediction with the uuid of an annotation, a clip with the
+    uuid of its recording, the collection with the uuid of a member): identity is per kind, so nothing may merge"""
+    by_kind = {}
+
+    def walk(x, key=None):
+        if isinstance(x, dict):
+            kd = kind_of(x, key)
+            if kd and isinstance(x.get("uuid"), str):
+                by_kind.setdefault(kd, [])
+                if x["uuid"] not in by_kind[kd]:
+                    by_kind[kd].append(x["uuid"])
+            for kk, v in x.items():
+                walk(v, kk)
+        elif isinstance(x, list):
+            for v in x:
+                walk(v, key)
+    walk(cj["value"], "~collection")
+    kinds = sorted(by_kind)
+    out = cj
+    if len(kinds) < 2:
+        return out
+    for _ in range(k):
+        ka, kb = rng.sample(kinds, 2)
+        ua, ub = rng.choice(by_kind[ka]), rng.choice(by_kind[kb])
+        if ub in by_kind[ka]:
+            continue
+        out = map_kind(out, ka, lambda d, ua=ua, ub=ub: dict(d, uuid=ub) if d.get("uuid") == ua else d)
+        by_kind[ka] = [ub if u == ua else u for u in by_kind[ka]]
+    if rng.random() < 0.7:
+        kb = rng.choice(kinds)
+        out = {"type": out["type"], "value": dict(out["value"], uuid=rng.choice(by_kind[kb]))}
+    return out
+
+
+def size_cases(rng, counts=(17, 257, 1025)):
+    """collections at the sizes where an implementation could switch strategy (> 16, > 256, >= 1024 elements):
+    that many recordings (sharing a handful of tags and users), tags on one recording, sound events / annotations in
+    one clip annotation, predictions in one clip prediction, features in one list, notes on one recording, a parent
+    chain of sequences, clip annotations in a set"""
+    out = []
+
+    def mk(cj, tally):
+        out.append({"collection": cj, "save_dir": None, "load_dir": None, "n": 1, "dir_as": "str", "fresh": False,
+                    "_tally": tally})
+    for n in counts:
+        g = aoefgen.Gen(rng, base="/data/audio", size=1.0)
+        recs = []
+        for i in range(n):
+            r = g.recording(i)
+            r["path"] = f"/data/audio/site {i % 7}/r{i}.wav"
+            r["notes"] = r["notes"][:1] if i % 5 == 0 else []
+            recs.append(r)
+        mk({"type": "dataset", "value": {"uuid": g.uid(), "created_on": g.stamp(), "name": "n", "description": None,
+                                          "recordings": recs}}, f"{n} recordings")
+        # n distinct tags on one recording (and a few repeated), n features, n notes
+        r0 = g.recording(0)
+        r0["tags"] = [{"key": f"k{i % 13}", "value": f"v{i}"} for i in range(n)] + [{"key": "k0", "value": "v0"}]
+        r0["features"] = [{"key": f"f{i}", "value": num(i / 7)} for i in range(n)]
+        r0["notes"] = [{"uuid": g.uid(), "message": f"note {i}", "created_by": g.user_ref(), "is_issue": bool(i % 2),
+                        "created_on": g.stamp()} for i in range(min(n, 300))]
+        mk({"type": "recording_set", "value": {"uuid": g.uid(), "created_on": g.stamp(), "recordings": [r0]}},
+           f"{n} tags / features on one recording")
+        # n sound events, annotated and predicted, in one clip
+        rec = g.recording(1)
+        clip = {"uuid": g.uid(), "recording": rec, "start_time": num(0.0), "end_time": num(10.0), "features": []}
+        ses = [{"uuid": g.uid(), "geometry": geom_token({"type": "TimeInterval", "coordinates": [i / 128, i / 128 + 0.5]}),
+                "recording": copy.deepcopy(rec), "features": []} for i in range(n)]
+        seas = [{"uuid": g.uid(), "sound_event": s, "notes": [], "tags": [{"key": "k", "value": f"v{i % 19}"}],
+                 "created_by": None, "created_on": "2020-01-01T00:00:00"} for i, s in enumerate(ses)]
+        seps = [{"uuid": g.uid(), "sound_event": copy.deepcopy(s), "score": num((i % 100) / 100),
+                 "tags": [{"tag": {"key": "k", "value": f"v{i % 19}"}, "score": num(0.5)}]} for i, s in enumerate(ses)]
+        ca = {"uuid": g.uid(), "clip": clip, "sound_events": seas, "sequences": [], "tags": [], "notes": [],
+              "created_on": "2020-01-01T00:00:00"}
+        mk({"type": "annotation_set", "value": {"uuid": g.uid(), "created_on": g.stamp(), "clip_annotations": [ca]}},
+           f"{n} sound event annotations in one clip")
+        cp = {"uuid": g.uid(), "clip": copy.deepcopy(clip), "sound_events": seps, "sequences": [], "tags": [], "features": []}
+        mk({"type": "prediction_set", "value": {"uuid": g.uid(), "created_on": g.stamp(), "clip_predictions": [cp]}},
+           f"{n} sound event predictions in one clip")
+        if n <= 300:
+            # a chain of n sequences, each the parent of the next, the last one annotated
+            seq = None
+            for i in range(n):
+                seq = {"uuid": g.uid(), "sound_events": [copy.deepcopy(ses[i % len(ses)])], "features": [], "parent": seq}
+            sqa = {"uuid": g.uid(), "sequence": seq, "notes": [], "tags": [], "created_by": None,
+                   "created_on": "2020-01-01T00:00:00"}
+            ca2 = {"uuid": g.uid(), "clip": copy.deepcopy(clip), "sound_events": [], "sequences": [sqa], "tags": [], "notes": [],
+                   "created_on": "2020-01-01T00:00:00"}
+            mk({"type": "annotation_set", "value": {"uuid": g.uid(), "created_on": g.stamp(), "clip_annotations": [ca2]}},
+               f"a parent chain of {n} sequences")
+    return out
